@@ -196,10 +196,38 @@ class Program:
                     vals[t.id] = fold(value, vals)
                 except NotConstant:
                     vals.pop(t.id, None)
+                    got = self._import_time_value(rel, value, vals)
+                    if got is not NotImplemented:
+                        vals[t.id] = got
             if isinstance(st, ast.For):
                 # a table filled by a loop at import time (VALENCE_BY_ELEMENT[elem] = ...): the loop is evaluated on the constants so far
                 self._run_module_loop(st, vals, counts)
         return {k: v for k, v in vals.items() if counts.get(k) == 1}
+
+    def _import_time_value(self, rel, value, vals):
+        """A module-level constant that is not a literal (tuple(...) of a generator, a read-only mapping view, a record instance, a path
+        relative to the module file, a table of functions): evaluated by the object-model interpreter on the constants bound so far."""
+        if not isinstance(value, (ast.Call, ast.BinOp, ast.Dict, ast.Tuple, ast.List, ast.ListComp, ast.DictComp, ast.SetComp, ast.GeneratorExp, ast.Attribute)):
+            return NotImplemented
+        if isinstance(value, ast.Call) and U(value.func).split(".")[-1] in ("getLogger", "TypeVar", "compile", "namedtuple"):
+            return NotImplemented
+        if getattr(self, "_import_eval_depth", 0) > 3:
+            return NotImplemented
+        self._import_eval_depth = getattr(self, "_import_eval_depth", 0) + 1
+        try:
+            from .guards import Flow, Unknown
+            from .objinterp import ObjRunner
+            run = ObjRunner(self, rel)
+            run.module_state[rel] = dict(vals)
+            try:
+                got = run.eval_expr(rel, value, dict(vals))
+            except (AnalysisError, Flow, TypeError, KeyError, IndexError, AttributeError, ValueError, RecursionError):
+                return NotImplemented
+            if _has_unknown(got, Unknown):
+                return NotImplemented
+            return got
+        finally:
+            self._import_eval_depth -= 1
 
     @staticmethod
     def _run_module_loop(st, vals, counts):
@@ -403,6 +431,11 @@ def expand_temps(expr, fn, depth=3):
     """expr with every local that is bound exactly once in fn (to an expression without calls) replaced by that expression:
     `t = a / b; x += t * c` reads as `x += a / b * c`.  Returns a new node."""
     import copy
+    if not any(isinstance(n, ast.Name) for n in ast.walk(expr)):
+        return expr
+    cached = getattr(fn, "_single_binds", None)
+    if cached is not None:
+        return _substitute(expr, cached, depth)
     binds: dict[str, list] = {}
     for st in iter_stmts(fn.body):
         if isinstance(st, ast.Assign) and len(st.targets) == 1 and isinstance(st.targets[0], ast.Name):
@@ -413,15 +446,64 @@ def expand_temps(expr, fn, depth=3):
             for t in ast.walk(st.target):
                 if isinstance(t, ast.Name):
                     binds.setdefault(t.id, []).extend([None, None])
-    single = {k: v[0] for k, v in binds.items() if len(v) == 1 and v[0] is not None and not any(isinstance(n, ast.Call) for n in ast.walk(v[0]))}
+    pure = ("isinstance", "len", "bool", "abs", "min", "max", "str", "int", "float")
+    pure_methods = ("has_atom", "startswith", "endswith", "get", "get_atom", "lower", "upper", "strip")
+
+    def call_free(e):
+        for n in ast.walk(e):
+            if isinstance(n, ast.Call):
+                if isinstance(n.func, ast.Name) and n.func.id in pure:
+                    continue
+                if isinstance(n.func, ast.Attribute) and n.func.attr in pure_methods:
+                    continue
+                return False
+        return True
+
+    single = {k: v[0] for k, v in binds.items() if len(v) == 1 and v[0] is not None and call_free(v[0])}
+    fn._single_binds = single
+    return _substitute(expr, single, depth)
+
+
+def clone(node):
+    """Copy of a syntax tree by its fields only (the parent/module back-links the program model hangs on nodes are not followed)."""
+    if isinstance(node, list):
+        return [clone(x) for x in node]
+    if not isinstance(node, ast.AST):
+        return node
+    new = type(node)(**{f: clone(v) for f, v in ast.iter_fields(node)})
+    return ast.copy_location(new, node) if hasattr(node, "lineno") else new
+
+
+def flatten_boolops(test):
+    """`(a and b) and c` / `a and (b and c)` written as `a and b and c` (likewise `or`): a copy, the original is left alone."""
+    t = clone(test)
+
+    class _F(ast.NodeTransformer):
+        def visit_BoolOp(self, node):
+            self.generic_visit(node)
+            vals = []
+            for v in node.values:
+                if isinstance(v, ast.BoolOp) and type(v.op) is type(node.op):
+                    vals.extend(v.values)
+                else:
+                    vals.append(v)
+            node.values = vals
+            return node
+
+    return ast.fix_missing_locations(_F().visit(t))
+
+
+def _substitute(expr, single, depth):
+    if not any(isinstance(n, ast.Name) and n.id in single for n in ast.walk(expr)):
+        return expr
 
     class _T(ast.NodeTransformer):
         def visit_Name(self, node):
             if isinstance(node.ctx, ast.Load) and node.id in single:
-                return copy.deepcopy(single[node.id])
+                return clone(single[node.id])
             return node
 
-    out = copy.deepcopy(expr)
+    out = clone(expr)
     for _ in range(depth):
         new = _T().visit(out)
         if ast.dump(new) == ast.dump(out):
@@ -729,3 +811,15 @@ def _eval_test(test, assign):
         return not _eval_test(test.operand, assign)
     pos, negated = _positive(test)
     return assign[U(pos)] != negated
+
+
+def _has_unknown(v, Unknown, depth=0):
+    if isinstance(v, Unknown):
+        return True
+    if depth > 4:
+        return False
+    if isinstance(v, dict):
+        return any(_has_unknown(x, Unknown, depth + 1) for x in list(v.keys()) + list(v.values()) if not callable(x) or isinstance(x, dict))
+    if isinstance(v, (list, tuple, set, frozenset)):
+        return any(_has_unknown(x, Unknown, depth + 1) for x in v)
+    return False
